@@ -235,7 +235,8 @@ class AffineToJacobian:
 
 @contract(f"{E}::EcCurve.JacobianToAffine")
 class JacobianToAffine:
-  caller_ensures = ["(result[0] is None) == (result[1] is None)"]
+  caller_ensures = ["(result[0] is None) == (result[1] is None)",
+                    "result[0] is None or (0 <= result[0] and result[0] < self.mod and 0 <= result[1] and result[1] < self.mod)"]
   params = {"p": "jpoint"}
   self_fields = F
   returns = "point"
